@@ -711,7 +711,13 @@ int write_msa_fasta(struct msa* msa,char* outfile)
                 }
         }
         if(outfile){
-                fclose(f_ptr);
+                if(fclose(f_ptr) != 0){
+                        ERROR_MSG("Writing to %s failed.", outfile);
+                }
+        }else{
+                if(fflush(f_ptr) != 0){
+                        ERROR_MSG("Writing to standard output failed.");
+                }
         }
 
         return OK;
@@ -858,10 +864,16 @@ int write_msa_clu(struct msa* msa,char* outfile)
                 //fprintf(stdout,"%d %d %s\n",ol->seq_id,ol->block,ol->line);
 
         }
-        if(outfile){
-                fclose(f_ptr);
-        }
         free_line_buffer(lb);
+        if(outfile){
+                if(fclose(f_ptr) != 0){
+                        ERROR_MSG("Writing to %s failed.", outfile);
+                }
+        }else{
+                if(fflush(f_ptr) != 0){
+                        ERROR_MSG("Writing to standard output failed.");
+                }
+        }
         /* MFREE(linear_seq); */
         return OK;
 ERROR:
@@ -1138,10 +1150,16 @@ int write_msa_msf(struct msa* msa,char* outfile)
                 //fprintf(stdout,"%d %d %s\n",ol->seq_id,ol->block,ol->line);
                 fprintf(f_ptr, "%s\n", ol->line);
         }
-        if(outfile){
-                fclose(f_ptr);
-        }
         free_line_buffer(lb);
+        if(outfile){
+                if(fclose(f_ptr) != 0){
+                        ERROR_MSG("Writing to %s failed.", outfile);
+                }
+        }else{
+                if(fflush(f_ptr) != 0){
+                        ERROR_MSG("Writing to standard output failed.");
+                }
+        }
         /* MFREE(linear_seq); */
         return OK;
 ERROR:
